@@ -105,6 +105,10 @@ def emit_bare(o, n, path, extra):
             start = sp[0]
         return sp
 
+    def inlist(nd, kinds=("rel", "xfer")):
+        """precedence needed inside a comma-separated list: relations and transfers contain commas of their own"""
+        return 1.5 if nd["k"] in kinds else 0
+
     if k == "prim":
         tk(n["s"])
     elif k == "lit":
@@ -114,13 +118,13 @@ def emit_bare(o, n, path, extra):
         for i in range(len(a)):
             if i:
                 tk(",")
-            child(i, 0)
+            child(i, inlist(a[i]))
         tk("}")
     elif k == "prop":
         tk("'" + n["s"])
         if n["n"]:
             tk("!" if n["n"] == 1 else "?")       # the mark is a token of its own
-        child(0, 0)
+        child(0, inlist(a[0]))
     elif k == "arr":
         tk("[")
         child(0, 0)
@@ -146,10 +150,10 @@ def emit_bare(o, n, path, extra):
                 o.map[pkey(path + [i + 1])] = ment
                 ms = o.token(m["s"])
                 o.token("=")
-                sp = emit(o, m["a"][0], path + [i + 1, 1], 0, extra)
+                sp = emit(o, m["a"][0], path + [i + 1, 1], inlist(m["a"][0]), extra)
                 ment["span"] = [ms[0], sp[1]]
             else:
-                child(i, 0)
+                child(i, inlist(a[i]))
         tk(">")
     elif k == "uri":
         nseg = len(a) - (1 if n["n"] == 1 else 0)
@@ -173,7 +177,7 @@ def emit_bare(o, n, path, extra):
         for i in range(1, len(a)):
             if i > 1:
                 tk(",")
-            child(i, 0)
+            child(i, inlist(a[i], ("rel",)))
     elif k == "xfer":
         ms = n["s"].split(",")
         for i, m in enumerate(ms):
